@@ -314,10 +314,22 @@ func perturbVar(v string) string {
 	if len(fs) == 0 {
 		return v
 	}
+	other := func(a string) string {
+		if a == "USD" {
+			return "EUR"
+		}
+		return "USD"
+	}
 	last := fs[len(fs)-1]
 	n, ok := new(big.Int).SetString(last, 10)
 	if !ok {
+		if len(fs) == 1 && len(v) > 1 && strings.ToUpper(v) == v && strings.Trim(v, "ABCDEFGHIJKLMNOPQRSTUVWXYZ/0123456789") == "" {
+			return other(v) // an asset: the earlier run was about another one
+		}
 		return v
+	}
+	if len(fs) == 2 && n.Bit(0) == 0 {
+		fs[0] = other(fs[0])
 	}
 	fs[len(fs)-1] = n.Add(n, big.NewInt(7)).String()
 	return strings.Join(fs, " ")
